@@ -118,6 +118,17 @@ def run_case(case):
                 wsj, cj, _o = snap()
                 events.append({"act": {"op": "Evict", "c": op["c"]}, "ws": wsj, "cache": cj, "flags": {}})
                 continue
+            if op.get("op") == "Corrupt":
+                # the object is replaced by a file of other bytes, left writable (an interrupted write, an edit through a link)
+                p = w.cache_path(OID[op["c"]])
+                tmp = p + ".new"
+                with open(tmp, "wb") as fh:
+                    fh.write(CONTENTS[op["c"]] + b"#corrupt")
+                os.chmod(tmp, 0o644)
+                os.replace(tmp, p)
+                wsj, cj, _o = snap()
+                events.append({"act": {"op": "Corrupt", "c": op["c"]}, "ws": wsj, "cache": cj, "flags": {}})
+                continue
             # a successful checkout is followed by a plain second checkout of the same target
             for rep in range(2):
                 if rep == 1:
@@ -261,6 +272,24 @@ def evict_cases():
     return cases
 
 
+def corrupt_between_cases():
+    """A cache object is damaged between two checkouts of one process; the second one needs it for a new path."""
+    cases, n = [], 980000
+    for c in ("c1", "c2"):
+        for t1, t2 in (({"kind": "tree", "listing": {"a": c}}, {"kind": "tree", "listing": {"a": c, "s/b": c}}),
+                       ({"kind": "file", "c": c}, {"kind": "tree", "listing": {"s/b": c}}),
+                       ({"kind": "tree", "listing": {"a": c, "s/b": "c0"}}, {"kind": "tree", "listing": {"a": "c0", "s/b": c}})):
+            for cls in ("local", "generic"):
+                for state in (False, True):
+                    for force in (False, True):
+                        cases.append({"id": n, "link": "copy", "cls": cls, "state": state,
+                                      "init": {"ws": {"kind": "absent"}, "cache": {"c0": "ok", "c1": "ok", "c2": "ok"}, "dirobjs": []},
+                                      "ops": [{"t": t1, "force": False, "relink": False, "prompt": "absent"}, {"op": "Corrupt", "c": c},
+                                              {"t": t2, "force": force, "relink": False, "prompt": "accepts"}]})
+                        n += 1
+    return cases
+
+
 def dangling_cases():
     """A prior directory that holds a dangling symbolic link next to user files the cache cannot give back."""
     cases, n = [], 960000
@@ -374,7 +403,7 @@ def _check(run: core.Run, focus, replay=None):
         cases = [replay["witness"]["case"]]
     else:
         gen = generate()
-        cases = directed_cases() + evict_cases() + dangling_cases() + mixed_link_cases() + make_cases(gen, rng, 2400 if quick else 24000, focus)
+        cases = directed_cases() + evict_cases() + corrupt_between_cases() + dangling_cases() + mixed_link_cases() + make_cases(gen, rng, 2400 if quick else 24000, focus)
     traces = execute_and_validate(run, cases)
     run.extra["rule"] = ("TLC-generated prior workspaces (absent / file / directory, files as copies, hard links or symbolic links), "
                          "cache contents (present, absent, corrupt per object; directory object cached or not), targets (none / file / "
